@@ -23,8 +23,9 @@ def schema_events(wd, quick, seed):
     import sys, os, json
     sys.path.insert(0, os.path.join(os.path.dirname(os.path.abspath(__file__)), "tools"))
     import schema_tables
-    evs, P = schema_tables.events("/repo")
-    evs.append({"ev": "artifact_file", "case": "legacy-artifact", "src": "static", "in": {"path": "/repo/data/random_lp_instance.ommx"}})
+    repo = os.environ.get("VERIF_REPO", "/repo")
+    evs, P = schema_tables.events(repo)
+    evs.append({"ev": "artifact_file", "case": "legacy-artifact", "src": "static", "in": {"path": repo + "/data/random_lp_instance.ommx"}})
     return evs
 
 GI = lambda name, cfgname: G(name, f"Gen_Inst_{cfgname}.cfg", module="Gen_Inst.tla")
